@@ -21,6 +21,8 @@ func init() {
 	commands["c14"] = func(args []string) error {
 		out := NewOutput()
 		rng := NewRng(seedFromEnv(), "c14")
+		lateRegistrationPrelude()
+		reportLate(out, "C14", "json", "names")
 		// ---- labels
 		for s := -2; s <= 10; s++ {
 			st := lint.LintStatus(s)
